@@ -196,7 +196,7 @@ func gtDrawPlan(rt *rapid.T) *gtPlan {
 	nact := vs.Range(c, 2, 6)
 	p.NCtx = vs.Range(c, 1, 3)
 	p.RacePct = vs.Pick(c, 30, 0, 10, 60)
-	maxLen := vs.Thorough(6, 10)
+	maxLen := vs.Thorough(6, 12)
 	if !p.Queue {
 		p.Locked0 = vs.Pct(c, 25)
 		p.Set0 = vs.Bool(c)
@@ -1088,7 +1088,7 @@ var gtProbes = []string{
 	"probe.race_events", "probe.race_unlock_vs_acquire", "probe.race_cancel_vs_unlock_with_waiter",
 	"probe.op_blocked_in_code_under_test", "probe.two_or_more_blocked", "probe.handoff_to_blocked_op",
 	"probe.cancel_wakes_blocked_op", "probe.acquired_despite_cancelled_ctx",
-	"probe.lockifset_true", "probe.lockifset_false", "probe.porcupine_checked", "probe.porcupine_unknown",
+	"probe.lockifset_true", "probe.lockifset_false", "probe.porcupine_checked", // probe.porcupine_unknown is counted when it happens; zero is the expected value
 }
 
 var gtQueueProbes = []string{
